@@ -69,7 +69,9 @@ def pair_features(a: str, b: str) -> list[str]:
     nb = "".join(ch for ch in b.lower() if ch.isalnum())
     if na == nb:
         f.append("names_equal_after_alnum_casefold")
-    if not na or not nb:
+    # member / identifier derivation keeps ASCII letters and digits only: a name made of symbols and non-ASCII letters
+    # ('é-', '-日') derives to the same bare '_' as a symbol-only one
+    if not any(ch.isascii() and ch.isalnum() for ch in a) or not any(ch.isascii() and ch.isalnum() for ch in b):
         f.append("name_without_alphanumerics")
     if any(ord(ch) > 127 for ch in a + b):
         f.append("non_ascii_name")
